@@ -191,6 +191,8 @@ func lookupMethod(i *interpreter, typ types.Type, meth *types.Func) *ssa.Functio
 	case errorType:
 		return i.errorMethods[meth.Id()]
 	}
+	progMu.RLock()
+	defer progMu.RUnlock()
 	return i.prog.LookupMethod(typ, meth.Pkg(), meth.Name())
 }
 
